@@ -387,7 +387,11 @@ pub fn guarded<R>(f: impl FnOnce() -> R) -> Result<R, String> {
    }
 }
 
-pub fn quiet_panics() { std::panic::set_hook(Box::new(|_| {})); }
+pub fn quiet_panics() {
+   if std::env::var_os("VH_LOUD").is_none() {
+      std::panic::set_hook(Box::new(|_| {}));
+   }
+}
 
 pub fn read_cases() -> Vec<Value> {
    use std::io::BufRead;
